@@ -154,8 +154,113 @@ def attn_p_vc():
                            "lo / hi: ANY lower / upper bound of the kept values of the coordinate (hence also their minimum / maximum)"])
 
 
+def blind_p_vc():
+    """P rung (relational): two runs of dot-product attention on the same query and mask whose keys and values agree at the KEPT
+    positions and are arbitrary elsewhere give the same output - for SYMBOLIC T, D, Dv. Three steps, each with base / step obligations:
+      (1) scores agree at every position: at a masked one both are -inf; at a kept one the dot products agree by induction over the
+          key dimension (partial sums of q * k and q * k');
+      (2) softmax is a function of the score vector (assumed: equal score vectors give equal weights - congruence of an
+          uninterpreted function, with its premise (1) proved);
+      (3) the weighted sums agree by induction over the sequence: a masked position contributes weight 0, a kept one the same value."""
+    import pydrobert.torch._attn as A
+    from vf.pyvc import symtensor as stn
+
+    T, D, DV, D0, J0, T1, E0 = z3.Ints("T D Dv d0 j0 t1 e0")
+    SCALE = z3.Real("scale")
+    Q = z3.Function("q", z3.IntSort(), z3.RealSort())
+    K1 = z3.Function("k", z3.IntSort(), z3.IntSort(), z3.RealSort())
+    V1 = z3.Function("v", z3.IntSort(), z3.IntSort(), z3.RealSort())
+    KA = z3.Function("k_other", z3.IntSort(), z3.IntSort(), z3.RealSort())
+    VA = z3.Function("v_other", z3.IntSort(), z3.IntSort(), z3.RealSort())
+    KEEP = z3.Function("keep", z3.IntSort(), z3.BoolSort())
+    t_ = z3.Int("t_q")
+    K2 = lambda t, d: z3.If(KEEP(t), K1(t, d), KA(t, d))  # agrees with the first run where kept, arbitrary elsewhere
+    V2 = lambda t, d: z3.If(KEEP(t), V1(t, d), VA(t, d))
+
+    def thunk(I):
+        I.stubs.update(stn.stubs())
+
+        def bshapes(I2, a, k):
+            shapes = [tuple(x) for x in a]
+            rank = max(len(x) for x in shapes)
+            out = []
+            for i in range(rank):
+                dims = [x[i - (rank - len(x))] for x in shapes if i - (rank - len(x)) >= 0]
+                big = [x for x in dims if not (isinstance(x, int) and x == 1)]
+                pick = big[0] if big else 1
+                for x in big[1:]:
+                    if not stn.dim_eq(x, pick):
+                        raise ip.PyRaise("RuntimeError", "shapes do not broadcast")
+                out.append(pick)
+            return tuple(out)
+
+        I.contracts["pydrobert.torch._compat.broadcast_shapes"] = bshapes
+        I.stubs["torch.functional.broadcast_shapes"] = lambda I2, *shapes: bshapes(I2, shapes, {})
+        obj = ip.SObj(A.DotProductSoftAttention, {"query_size": D, "key_size": D, "dim": 0, "scale_factor": SCALE}, "attn")
+        q = stn.ST((D,), lambda d: Q(ip.to_z3(d)), "float")
+        mask = stn.ST((T,), lambda t: KEEP(ip.to_z3(t)), "bool")
+        runs = []
+        for KF, VF in ((K1, V1), (K2, V2)):
+            k = stn.ST((T, D), lambda t, d, KF=KF: KF(ip.to_z3(t), ip.to_z3(d)), "float")
+            v = stn.ST((T, DV), lambda t, d, VF=VF: VF(ip.to_z3(t), ip.to_z3(d)), "float")
+            n_s, n_m = len(I.ex.ghost.get("sums", [])), len(I.ex.ghost.get("softmaxes", []))
+            out = I.call(I.getattr(obj, "forward"), [q, k, v, mask], {})
+            sums = [x for x in I.ex.ghost["sums"][n_s:] if x.get("kind") == "sum"]
+            if len(sums) != 2 or len(I.ex.ghost["softmaxes"][n_m:]) != 1:
+                raise ip.Unsupported("one score reduction, one softmax and one weighted sum per run expected")
+            runs.append({"out": out, "score": sums[0], "wsum": sums[1], "sm": I.ex.ghost["softmaxes"][-1]})
+        a, b = runs
+        I.ex.oblige("blind.extents", z3.And(a["score"]["T"] == D, b["score"]["T"] == D, a["wsum"]["T"] == T, b["wsum"]["T"] == T, a["sm"]["n"] == T, b["sm"]["n"] == T))
+        # (1) dot products agree at a kept position t1: induction over the key dimension
+        SA, SB = (lambda j: a["score"]["S"](T1, j)), (lambda j: b["score"]["S"](T1, j))
+        dot = lambda j: z3.Implies(z3.And(0 <= T1, T1 < T, KEEP(T1), 0 <= j, j <= D), SA(j) == SB(j))
+        for x in (a["score"]["base"](T1), b["score"]["base"](T1), a["score"]["step"](T1, E0), b["score"]["step"](T1, E0)):
+            I.ex.instance(x)
+        I.ex.oblige("blind.dot.base", dot(z3.IntVal(0)))
+        I.ex.oblige("blind.dot.step", z3.Implies(z3.And(0 <= E0, E0 < D, dot(E0)), dot(E0 + 1)))
+        I.ex.assume(z3.ForAll([t_], dot(t_)))
+        I.ex.instance(dot(D))
+        # scores (after scaling and masking) agree at EVERY position t1: -inf pattern and finite value
+        fa, va = ct.ng_split(a["sm"]["score"](T1))
+        fb, vb = ct.ng_split(b["sm"]["score"](T1))
+        B_ = lambda x: z3.BoolVal(x) if isinstance(x, bool) else x
+        same_score = lambda: z3.Implies(z3.And(0 <= T1, T1 < T), z3.And(B_(fa) == B_(fb), z3.Implies(z3.Not(B_(fa)), ip.to_z3(va) == ip.to_z3(vb))))
+        I.ex.oblige("blind.scores_agree_everywhere", same_score())
+        # (2) softmax congruence (assumed): equal score vectors -> equal weights
+        AW, BW = a["sm"]["A"], b["sm"]["A"]
+        I.ex.assume(z3.ForAll([t_], z3.Implies(z3.And(0 <= t_, t_ < T), AW(t_) == BW(t_))))
+        I.ex.instance(z3.Implies(z3.And(0 <= J0, J0 < T), AW(J0) == BW(J0)))
+        # (3) weighted sums agree: induction over the sequence
+        PA, PB = (lambda j: a["wsum"]["S"](D0, j)), (lambda j: b["wsum"]["S"](D0, j))
+        eq = lambda j: z3.Implies(z3.And(0 <= j, j <= T), PA(j) == PB(j))
+        for x in (a["wsum"]["base"](D0), b["wsum"]["base"](D0), a["wsum"]["step"](D0, J0), b["wsum"]["step"](D0, J0), a["sm"]["weight"](J0), b["sm"]["weight"](J0)):
+            I.ex.instance(x)
+        I.ex.oblige("blind.masked_scores_are_minus_infinity", z3.Implies(z3.And(0 <= J0, J0 < T), z3.And(a["sm"]["ninf"](J0) == z3.Not(KEEP(J0)), b["sm"]["ninf"](J0) == z3.Not(KEEP(J0)))))
+        I.ex.oblige("blind.sum.base", eq(z3.IntVal(0)))
+        I.ex.oblige("blind.sum.step", z3.Implies(z3.And(0 <= J0, J0 < T, eq(J0)), eq(J0 + 1)))
+        I.ex.assume(z3.ForAll([t_], eq(t_)))
+        I.ex.instance(eq(T))
+        I.ex.ghost["runs"] = runs
+        return a["out"]
+
+    def post(p):
+        if not api.returns(p) or "runs" not in p.ghost:
+            return False
+        o1, o2 = p.ghost["runs"][0]["out"], p.ghost["runs"][1]["out"]
+        if not (hasattr(o1, "elem") and hasattr(o2, "elem")):
+            return False
+        return [("same_output_when_masked_keys_and_values_are_replaced", ip.to_z3(o1.elem(D0)) == ip.to_z3(o2.elem(D0)))]
+
+    return VC("C20.P.blind", "DotProductSoftAttention.forward x 2 [symbolic T, D, Dv]", M, "GlobalSoftAttention.forward", thunk, pre=[T >= 1, D >= 0, DV >= 1, 0 <= D0, D0 < DV],
+              posts=[("blind_to_masked_positions", post)], inputs={"T": T, "D": D, "Dv": DV}, timeout_ms=30000,
+              assumptions=["sum over a symbolic extent = partial sums; softmax over a symbolic extent: weights >= 0 and 0 at -inf scores (assumed contracts)",
+                           "softmax is a function of its score vector: two calls whose scores agree at every position (-inf pattern and finite values, proved as an obligation) return the same weights (assumed: congruence)",
+                           "inductions over the key dimension and over the sequence applied outside the solver (base and step are obligations)",
+                           "dot-product attention, sequence dimension 0, un-batched query; float arithmetic treated as real arithmetic"])
+
+
 def p_vcs(ctx):
-    return [attn_p_vc()]
+    return [attn_p_vc(), blind_p_vc()]
 
 
 def vcs(ctx):
